@@ -1,4 +1,5 @@
 import SJ.Proofs.Tables
+import SJ.Proofs.StrLex
 import SJ.Proofs.Escape
 /-
 C04 — String escapes decode exactly, independent of length and alignment.
@@ -43,5 +44,26 @@ theorem C04_hex4_invalid (a b c d : UInt8)
 theorem C04_kernel_immediates :
     Generated.aParseStringCmpValidate = [117, 6, 0, 21, 6, 55296, 128, 12, 92, 117, 65535, 128, 2048, 65536, 1114111] ∧
     Generated.aParseStringCmpCopy = [65535, 1114111, 117, 6, 21, 6, 55296, 12, 92, 117, 65535, 127, 2047] := by decide
+
+
+open SJ.ParseDefs in
+/-- **The decoder against the RFC string production, whole strings.** If the specification reads a string body as the
+    bytes `dec` (every two-character escape and every `\\uXXXX` replaced — a surrogate pair by one 4-byte code point —
+    all other bytes unchanged), then the decoder model, started anywhere in any buffer whose content from there on is that
+    text, returns exactly `dec` and stops on the closing quote, whatever the string's length and position (`lim` is the
+    distance to the next structural index; any value beyond the closing quote will do). -/
+theorem C04_decode_exact (fuel : Nat) (s dec rest : List UInt8) (h : Spec.stringBody fuel s [] false = .acc dec rest) :
+    ∃ d, closeQ s = some d ∧ rest = s.drop (d + 1) ∧ (∀ j, j < d → ¬ (s.getD j 0 < 0x20)) ∧
+      ∀ (a : Bytes) (start lim : Nat), a.toList.drop start = s → d < lim →
+        decodeString a start lim = some (dec.toArray, start + d) := strFacts.acc fuel s dec rest h
+
+open SJ.ParseDefs in
+/-- … and a body the specification rejects (bad or truncated escape, raw control character, no closing quote) is never
+    decoded: there is no closing quote, or a control character precedes it (stage 1 flags it), or the decoder fails. -/
+theorem C04_decode_rejects (fuel : Nat) (s : List UInt8) (hf : s.length < fuel) (h : Spec.stringBody fuel s [] false = .rej) :
+    closeQ s = none ∨ ∃ d, closeQ s = some d ∧
+      ((∃ j, j < d ∧ s.getD j 0 < 0x20) ∨
+       ∀ (a : Bytes) (start lim : Nat), a.toList.drop start = s → decodeString a start lim = none) :=
+  strFacts.rej fuel s hf h
 
 end SJ.Properties.C04
